@@ -62,7 +62,7 @@ def rand_op(rng, reads=True):
     if r < 0.55:
         return f"conc {rng.choice([0, 1, 3, 9])}"
     if r < 0.78:
-        return f"count {rng.choice(['pass', 'pass', 'pass', 'rt', 'block'])}"
+        return f"{rng.choice(['count', 'count', 'values'])} {rng.choice(['pass', 'pass', 'pass', 'rt', 'block'])}"
     return f"viewsum {rng.choice(['pass', 'pass', 'pass', 'rt', 'block'])}"
 
 
@@ -101,7 +101,7 @@ def gen_far_seq(rng, cid):
         clock += L
     for _ in range(rng.choice([1, 1, 2])):
         clock += far_jump(rng, L, I)
-        rd = rng.choice(["count pass ; viewsum pass", "viewsum pass ; count pass ; count rt", "count pass"])
+        rd = rng.choice(["count pass ; viewsum pass", "viewsum pass ; count pass ; count rt", "count pass", "values pass ; count pass"])
         ops += [f"thread 0 {clock} {rd}", "sched"]
         if rng.random() < 0.6:
             ops += [f"thread 0 {clock} add pass 1 ; count pass ; viewsum pass", "sched"]
@@ -132,11 +132,39 @@ def gen_seq_walk(rng, cid):
         elif r < 0.6:
             prog = f"add pass {rng.choice([1, 3])} ; count pass"
         elif r < 0.8:
-            prog = "count pass ; viewsum pass"
+            prog = rng.choice(["count pass ; viewsum pass", "values pass ; viewsum pass", "values pass"])
         else:
             prog = rng.choice(["viewsum pass", "viewsum pass ; count pass", "add rt 30 ; count rt", "conc 3 ; count pass"])
         ops += [f"thread 0 {clock} {prog}", "sched"]
     return Case(cid, ops, tags=(f"n={n}", f"L={L}", "k=1", "seq-walk"))
+
+
+def gen_readers(rng, cid):
+    """two or three concurrent READERS (count / viewsum, sometimes a recorder too) whose clock readings are up to n+1 buckets apart, so
+    that their sets of non-expired buckets differ in shape, interleaved at the yield points inside the scan (la.values.get,
+    la.deprecated.load) and the summation (mb.get), over an array whose slots all hold distinct amounts"""
+    n = rng.choice([2, 3, 3, 4, 4])
+    L = rng.choice([1, 10, 500])
+    I = n * L
+    t0 = rng.choice([1, 20, 1000]) * I
+    ops = [f"la.new {n} {I} {t0}"]
+    if rng.random() < 0.4:
+        d = rng.choice(divisors(n))
+        ops.append(f"view {rng.choice(divisors(d))} {d * L}")
+    amts = [1, 2, 100, 40][:n]
+    rng.shuffle(amts)
+    clock = t0
+    for a in amts:
+        ops += [f"thread 0 {clock} add pass {a}", "sched"]
+        clock += L
+    T = clock - L + rng.choice([0, 0, 1, L - 1])
+    k = rng.choice([2, 2, 3])
+    clocks = sorted(T + rng.choice([0, 0, 1, L, 2 * L, 2 * L, 3 * L, (n - 1) * L, n * L, (n + 1) * L]) for _ in range(k))
+    for i, c in enumerate(clocks):
+        prog = rng.choice(["count pass", "count pass", "values pass", "viewsum pass", "count pass ; count pass", "add pass 3 ; count pass"])
+        ops.append(f"thread {i} {c} {prog}")
+    ops.append(("sched " + rand_sched(rng, k, L)).strip())
+    return Case(cid, ops, tags=(f"n={n}", f"L={L}", f"k={k}", "readers-apart"))
 
 
 def gen_known_region(rng, cid):
@@ -163,6 +191,8 @@ def gen_case(rng, cid):
         return gen_far_seq(rng, cid)
     if r0 < 0.22:
         return gen_seq_walk(rng, cid)
+    if r0 < 0.30:
+        return gen_readers(rng, cid)
     far = rng.random() < 0.15          # this case contains far time jumps between its phases
     n = rng.choice([1, 2, 2, 2, 3, 4])
     L = rng.choice([1, 2, 10, 500, 500])
@@ -334,7 +364,19 @@ HUNT += [
                                  f"thread 0 {1000 + 3 * J32 + 499} viewsum pass", f"thread 1 {1000 + 3 * J32 + 500} add pass 2"],
      [f"thread 0 {1000 + 3 * J32 + 600} count pass ; viewsum pass", "sched"]),
 ]
+FILL4 = ["la.new 4 2000 4000", "thread 0 4000 add pass 1", "sched", "thread 0 4500 add pass 2", "sched",
+         "thread 0 5000 add pass 100", "sched", "thread 0 5500 add pass 40", "sched"]
+FILL3 = ["la.new 3 1500 3000", "thread 0 3000 add pass 1", "sched", "thread 0 3500 add pass 2", "sched", "thread 0 4000 add pass 100", "sched"]
+HUNT += [
+    # concurrent readers whose windows differ in shape (clock readings several buckets apart)
+    ("P-readers-3-buckets-apart", FILL4 + ["thread 0 5600 count pass", "thread 1 7100 count pass"], ["thread 0 7100 count pass", "sched"]),
+    ("P-readers-2-buckets-apart", FILL3 + ["thread 0 4100 count pass", "thread 1 5100 count pass"], ["thread 0 5100 count pass", "sched"]),
+    ("P-values-first-in-new-bucket", PRE500 + ["thread 0 2100 values pass", "thread 1 2100 add pass 1"], ["thread 0 2400 values pass ; count pass", "sched"]),
+    ("P-reader-vs-view-apart", FILL4 + ["thread 0 5600 count pass ; count pass", "thread 1 6600 viewsum pass"], ["thread 0 6600 count pass", "sched"]),
+]
 HUNT3 = [
+    ("Q-three-readers-apart", FILL4 + ["thread 0 5600 count pass", "thread 1 6600 count pass", "thread 2 7100 count pass"],
+     ["thread 0 7100 count pass", "sched"]),
     ("Q-two-adds-then-next-slot", PRE500 + ["thread 0 2000 add pass 1", "thread 1 2000 add pass 4", "thread 2 2500 add pass 2"],
      ["thread 0 2500 count pass ; viewsum pass", "sched", "thread 0 3100 count pass ; viewsum pass", "sched"]),
     ("Q-boundary-three", ["la.new 3 1500 600", "thread 0 999 add pass 1", "thread 1 1000 add pass 2", "thread 2 1000 count pass"],
